@@ -20,6 +20,8 @@ macro_rules! registry {
             "C31" => dispatch!($action, props::c31::C31, $ctx, $path),
             "C32" => dispatch!($action, props::c32::C32, $ctx, $path),
             "C33" => dispatch!($action, props::c33::C33, $ctx, $path),
+            "C37" => dispatch!($action, props::c37::C37, $ctx, $path),
+            "C40" => dispatch!($action, props::c40::C40, $ctx, $path),
             _ => {
                 eprintln!("unknown property {}", $id);
                 2
